@@ -743,3 +743,291 @@ Corollary load_fuel_independent f f' d d' rec ns t bs :
   (length bs < f)%nat -> (length bs < f')%nat -> (length bs <= d)%nat -> (length bs <= d')%nat ->
   load_f f d rec ns t bs = load_f f' d' rec ns t bs.
 Proof. intros. rewrite !load_total by assumption. reflexivity. Qed.
+
+(* ====================================================================================================== *)
+(* (A3) T2J byte walk: the text written is linear in the bytes consumed                                     *)
+(* ====================================================================================================== *)
+
+(* ---- lengths of the printers ---- *)
+Lemma fmt_nat_aux_length : forall fuel n acc, (length (fmt_nat_aux fuel n acc) <= fuel + length acc)%nat.
+Proof.
+  induction fuel as [|f IH]; intros n acc; cbn [fmt_nat_aux]; [lia|].
+  destruct (n <? 10); [cbn [length]; lia|]. specialize (IH (n / 10) ((48 + n mod 10) :: acc)). cbn [length] in IH. lia.
+Qed.
+
+(* crude but enough for linearity: one character per binary digit, plus the sign *)
+Lemma fmt_int_length z j : 0 <= j -> Z.abs z <= 2 ^ j -> (length (fmt_int z) <= Z.to_nat j + 2)%nat.
+Proof.
+  intros Hj Hz.
+  assert (G : forall m, 0 <= m <= 2 ^ j -> (length (fmt_nat m) <= Z.to_nat j + 1)%nat).
+  { intros m Hm. unfold fmt_nat. pose proof (fmt_nat_aux_length (S (Z.to_nat (Z.log2 m))) m []) as H. cbn [length] in H.
+    assert (Z.log2 m <= j).
+    { rewrite <- (Z.log2_pow2 j Hj). apply Z.log2_le_mono. lia. }
+    pose proof (Z.log2_nonneg m). lia. }
+  unfold fmt_int. destruct (z <? 0) eqn:E.
+  - apply Z.ltb_lt in E. cbn [length]. specialize (G (- z)). lia.
+  - apply Z.ltb_ge in E. specialize (G z). lia.
+Qed.
+
+Lemma to_s_range k x : 0 < k -> - 2 ^ (k - 1) <= to_s k x < 2 ^ (k - 1).
+Proof.
+  intros Hk. unfold to_s. replace (2 ^ k) with (2 * 2 ^ (k - 1)).
+  - assert (0 < 2 ^ (k - 1)) by (apply Z.pow_pos_nonneg; lia).
+    pose proof (Z.mod_pos_bound (x + 2 ^ (k - 1)) (2 * 2 ^ (k - 1))). lia.
+  - rewrite <- Z.pow_succ_r by lia. f_equal. lia.
+Qed.
+
+Lemma dec_int_abs x : (0 < length x)%nat -> Z.abs (dec_int x) <= 2 ^ (8 * Z.of_nat (length x) - 1).
+Proof. intros H. unfold dec_int. pose proof (to_s_range (8 * Z.of_nat (length x)) (dec_uint x)). lia. Qed.
+
+Lemma rd_int_fmt n bs z r : (0 < n)%nat -> rd_int n bs = Some (z, r) ->
+  length bs = (n + length r)%nat /\ Z.abs z <= 2 ^ (8 * Z.of_nat n - 1) /\ (length (fmt_int z) <= 8 * n + 1)%nat.
+Proof.
+  intros Hn. unfold rd_int. destruct (take n bs) as [[x r1]|] eqn:E; [|discriminate]. intros H; inversion H; subst.
+  apply take_len in E. destruct E as [E1 E2]. split; [assumption|].
+  assert (A : Z.abs (dec_int x) <= 2 ^ (8 * Z.of_nat (length x) - 1)) by (apply dec_int_abs; lia).
+  rewrite E2 in A. split; [exact A|]. pose proof (fmt_int_length (dec_int x) (8 * Z.of_nat n - 1)) as L. lia.
+Qed.
+
+Lemma byte_image_fmt o z : Z.abs z <= 2 ^ 7 -> (length (fmt_int (byte_image o z)) <= 10)%nat.
+Proof.
+  intros Hz. unfold byte_image. destruct (o_byte_as_uint8 o).
+  - pose proof (Z.mod_pos_bound z 256). pose proof (fmt_int_length (z mod 256) 8). change (2 ^ 8) with 256 in *. lia.
+  - pose proof (fmt_int_length z 7). lia.
+Qed.
+
+Lemma esc_byte_le6 c : (length (esc_byte c) <= 6)%nat.
+Proof.
+  unfold esc_byte.
+  repeat match goal with |- context [if ?b then _ else _] => destruct b end; cbn [length]; lia.
+Qed.
+
+Lemma escape_le6 s : (length (escape s) <= 6 * length s)%nat.
+Proof.
+  unfold escape. induction s as [|c s IH]; cbn [flat_map length]; [lia|].
+  rewrite app_length. pose proof (esc_byte_le6 c). lia.
+Qed.
+
+Lemma quote_ref_le s : (length (quote_ref s) <= 6 * length s + 2)%nat.
+Proof. unfold quote_ref. cbn [length]. rewrite app_length. cbn [length]. pose proof (escape_le6 s). lia. Qed.
+
+Lemma b64_encode_len bs : length (b64_encode bs) = (4 * ((length bs + 2) / 3))%nat.
+Proof.
+  (* same statement as Base64Proofs.b64_encode_length; reproved on the 3-step recursion to keep this file independent *)
+  assert (G : forall n (l : list Z), (length l <= n)%nat -> length (b64_encode l) = (4 * ((length l + 2) / 3))%nat).
+  { induction n as [|n IH]; intros l Hl.
+    - destruct l; [reflexivity|cbn [length] in Hl; lia].
+    - destruct l as [|a [|b [|c l]]]; try reflexivity.
+      cbn [b64_encode length]. rewrite IH by (cbn [length] in Hl; lia).
+      replace (S (S (S (length l))) + 2)%nat with ((length l + 2) + 1 * 3)%nat by lia.
+      rewrite Nat.div_add by lia. lia. }
+  apply (G (length bs)). lia.
+Qed.
+
+Lemma rd_bytes_split bs s r : rd_bytes bs = Some (s, r) -> length bs = (4 + length s + length r)%nat.
+Proof.
+  unfold rd_bytes. destruct (rd_int 4 bs) as [[n r1]|] eqn:E; [|discriminate]. apply rd_int_len in E.
+  destruct ((n <? 0) || (n >? zlen r1)) eqn:Eb; [discriminate|]. intros H; inversion H; subst.
+  apply orb_false_iff in Eb. destruct Eb as [E1 E2]. apply Z.ltb_ge in E1. rewrite Z.gtb_ltb in E2. apply Z.ltb_ge in E2.
+  unfold zlen in E2. rewrite firstn_length, skipn_length. lia.
+Qed.
+
+(* the longest quoted member name anywhere in a descriptor *)
+Fixpoint desc_maxkey (d : tdesc) : nat :=
+  match d with
+  | DScalar _ | DString _ => O
+  | DStruct fs => fold_right (fun f m => Nat.max (Nat.max (length (quote_ref (f_key (fst f)))) (desc_maxkey (snd f))) m) O fs
+  | DMap dk dv => Nat.max (desc_maxkey dk) (desc_maxkey dv)
+  | DList _ de => desc_maxkey de
+  end.
+
+Lemma desc_maxkey_field (fs : list (fmeta * tdesc)) fl M : (desc_maxkey (DStruct fs) <= M)%nat -> In fl fs ->
+  (length (quote_ref (f_key (fst fl))) <= M)%nat /\ (desc_maxkey (snd fl) <= M)%nat.
+Proof.
+  cbn [desc_maxkey]. induction fs as [|f fs IH]; cbn [fold_right In]; intros H Hin; [contradiction|].
+  destruct Hin as [->|Hin]; [lia|]. apply IH; [lia|assumption].
+Qed.
+
+Section T2JLinear.
+  Variable fd : Z -> list Z.
+  Variable o : Z.
+  Variables F M K : nat.
+  Hypothesis fd_le : forall b, (length (fd b) <= F)%nat.
+  Hypothesis K_ge : (13 + F + M <= K)%nat.
+
+  (* "txt plus s more characters are paid for by the bytes between bs and r, at K characters a byte" *)
+  Definition paid (s : nat) (txt bs r : list Z) : Prop := (length txt + s + K * length r <= K * length bs)%nat.
+
+  Lemma paid_take s txt bs r c : length bs = (c + length r)%nat -> (length txt + s <= K * c)%nat -> paid s txt bs r.
+  Proof. unfold paid. intros -> H. lia. Qed.
+
+  Lemma walk_scalar_paid t bs txt r : walk_scalar fd o t bs = Some (txt, r) -> paid 1 txt bs r.
+  Proof.
+    unfold walk_scalar.
+    destruct (t =? T_BOOL).
+    { destruct bs as [|b r0]; [discriminate|]. intros H; inversion H; subst. apply (paid_take _ _ _ _ 1%nat); [reflexivity|].
+      destruct (b =? 1); cbn [length lit_true lit_false]; lia. }
+    destruct (t =? T_BYTE).
+    { destruct (rd_int 1 bs) as [[z r1]|] eqn:E; [|discriminate]. intros H; inversion H; subst.
+      apply rd_int_fmt in E; [|lia]. destruct E as (E1 & E2 & _). apply (paid_take _ _ _ _ 1%nat); [assumption|].
+      pose proof (byte_image_fmt o z E2). lia. }
+    destruct (t =? T_I16).
+    { destruct (rd_int 2 bs) as [[z r1]|] eqn:E; [|discriminate]. intros H; inversion H; subst.
+      apply rd_int_fmt in E; [|lia]. destruct E as (E1 & _ & E3). apply (paid_take _ _ _ _ 2%nat); [assumption|lia]. }
+    destruct (t =? T_I32).
+    { destruct (rd_int 4 bs) as [[z r1]|] eqn:E; [|discriminate]. intros H; inversion H; subst.
+      apply rd_int_fmt in E; [|lia]. destruct E as (E1 & _ & E3). apply (paid_take _ _ _ _ 4%nat); [assumption|lia]. }
+    destruct (t =? T_I64).
+    { destruct (rd_int 8 bs) as [[z r1]|] eqn:E; [|discriminate]. intros H; inversion H; subst.
+      apply rd_int_fmt in E; [|lia]. destruct E as (E1 & _ & E3). apply (paid_take _ _ _ _ 8%nat); [assumption|].
+      destruct (o_int642string o); cbn [length]; rewrite ?app_length; cbn [length]; lia. }
+    destruct (t =? T_DOUBLE); [|discriminate].
+    destruct (rd_uint 8 bs) as [[z r1]|] eqn:E; [|discriminate]. destruct (f64_is_finite z); [|discriminate].
+    intros H; inversion H; subst. apply rd_uint_len in E. apply (paid_take _ _ _ _ 8%nat); [assumption|].
+    pose proof (fd_le z). lia.
+  Qed.
+
+  Lemma walk_string_paid b bs txt r : walk_string o b bs = Some (txt, r) -> paid 1 txt bs r.
+  Proof.
+    unfold walk_string. destruct (rd_bytes bs) as [[s r1]|] eqn:E; [|discriminate]. intros H; inversion H; subst.
+    apply rd_bytes_split in E. apply (paid_take _ _ _ _ (4 + length s)%nat); [lia|].
+    assert (L : (length (if b && negb (o_no_base64 o) then 34%Z :: b64_encode s ++ [34%Z] else quote_ref s) <= 6 * length s + 2)%nat).
+    { destruct (b && negb (o_no_base64 o)).
+      - cbn [length]. rewrite app_length, b64_encode_len. cbn [length].
+        assert (4 * ((length s + 2) / 3) <= 6 * length s)%nat.
+        { destruct (length s) as [|m]; [reflexivity|]. pose proof (Nat.div_mod (S m + 2) 3). pose proof (Nat.mod_upper_bound (S m + 2) 3). lia. }
+        lia.
+      - apply quote_ref_le. }
+    nia.
+  Qed.
+
+  (* the key text AND the ':' that follows it *)
+  Lemma walk_key_paid dk bs txt r : walk_key o dk bs = Some (txt, r) -> paid 1 txt bs r.
+  Proof.
+    unfold walk_key, walk_key_t. generalize (desc_type dk). intros t.
+    destruct (t =? T_BYTE).
+    { destruct (rd_int 1 bs) as [[z r1]|] eqn:E; [|discriminate]. intros H; inversion H; subst.
+      apply rd_int_fmt in E; [|lia]. destruct E as (E1 & E2 & _). apply (paid_take _ _ _ _ 1%nat); [assumption|].
+      pose proof (byte_image_fmt o z E2). cbn [length]. rewrite app_length. cbn [length]. lia. }
+    destruct (t =? T_I16).
+    { destruct (rd_int 2 bs) as [[z r1]|] eqn:E; [|discriminate]. intros H; inversion H; subst.
+      apply rd_int_fmt in E; [|lia]. destruct E as (E1 & _ & E3). apply (paid_take _ _ _ _ 2%nat); [assumption|].
+      cbn [length]. rewrite app_length. cbn [length]. lia. }
+    destruct (t =? T_I32).
+    { destruct (rd_int 4 bs) as [[z r1]|] eqn:E; [|discriminate]. intros H; inversion H; subst.
+      apply rd_int_fmt in E; [|lia]. destruct E as (E1 & _ & E3). apply (paid_take _ _ _ _ 4%nat); [assumption|].
+      cbn [length]. rewrite app_length. cbn [length]. lia. }
+    destruct (t =? T_I64).
+    { destruct (rd_int 8 bs) as [[z r1]|] eqn:E; [|discriminate]. intros H; inversion H; subst.
+      apply rd_int_fmt in E; [|lia]. destruct E as (E1 & _ & E3). apply (paid_take _ _ _ _ 8%nat); [assumption|].
+      cbn [length]. rewrite app_length. cbn [length]. lia. }
+    destruct (t =? T_STRING); [|discriminate].
+    destruct (rd_bytes bs) as [[s r1]|] eqn:E; [|discriminate]. intros H; inversion H; subst.
+    apply rd_bytes_split in E. apply (paid_take _ _ _ _ (4 + length s)%nat); [lia|].
+    pose proof (quote_ref_le s). nia.
+  Qed.
+
+  Lemma sep_le c : (length (sep c) <= 1)%nat.
+  Proof. destruct c; cbn; lia. Qed.
+
+  Section LoopsPaid.
+    Variable rec : tdesc -> list Z -> option (list Z * list Z).
+    Hypothesis rec_paid : forall d b t r, (desc_maxkey d <= M)%nat -> rec d b = Some (t, r) -> paid 1 t b r.
+
+    (* the fields and the closing brace, with room for the opening brace and the separator after the struct *)
+    Lemma walk_fields_paid : forall f fs c bm bs txt r,
+      (forall fl, In fl fs -> (length (quote_ref (f_key (fst fl))) <= M)%nat /\ (desc_maxkey (snd fl) <= M)%nat) ->
+      walk_fields o rec f fs c bm bs = Some (txt, r) -> paid 2 txt bs r.
+    Proof.
+      induction f as [|f IH]; intros fs c bm bs txt r Hfs; cbn [walk_fields]; [discriminate|].
+      destruct bs as [|t r0]; [discriminate|].
+      destruct (negb (valid_ttype t)); [discriminate|].
+      destruct (t =? 0).
+      { destruct (bm_missing fs bm); [discriminate|]. intros H; inversion H; subst.
+        apply (paid_take _ _ _ _ 1%nat); [reflexivity|]. cbn [length]. lia. }
+      destruct (rd_int 2 r0) as [[id r2]|] eqn:E2; [|discriminate]. apply rd_int_len in E2.
+      destruct (T2J.find_field fs id) as [fl|] eqn:Ef.
+      - apply find_field_in in Ef. destruct (Hfs fl Ef) as [Hk Hd].
+        destruct (rec (snd fl) r2) as [[t1 r3]|] eqn:E3; [|discriminate]. apply (rec_paid _ _ _ _ Hd) in E3.
+        destruct (walk_fields o rec f fs true (bm_clear id bm) r3) as [[tl r4]|] eqn:E4; [|discriminate].
+        apply (IH _ _ _ _ _ _ Hfs) in E4. intros H; inversion H; subst.
+        clear H IH Hfs. unfold paid, quote_ref in *. repeat first [rewrite app_length in * | progress cbn [length] in * ]. rewrite E2.
+        pose proof (sep_le c). lia.
+      - destruct (o_disallow_unknown o); [discriminate|].
+        destruct (skip_go t r2) as [r3|] eqn:E3; [|discriminate]. apply skip_go_shrinks in E3.
+        intros H. apply (IH _ _ _ _ _ _ Hfs) in H. unfold paid in *. cbn [length]. rewrite E2.
+        assert (K * length r3 <= K * length r2)%nat by (apply Nat.mul_le_mono_l; lia). lia.
+    Qed.
+
+    (* the elements and the closing bracket: the bracket is the one character not paid by an element *)
+    Lemma walk_elems_paid : forall n de c bs txt r, (desc_maxkey de <= M)%nat ->
+      walk_elems rec n de c bs = Some (txt, r) -> (length txt + K * length r <= 1 + K * length bs)%nat.
+    Proof.
+      induction n as [|n IH]; intros de c bs txt r Hd; cbn [walk_elems].
+      - intros H; inversion H; subst. cbn [length]. lia.
+      - destruct (rec de bs) as [[t1 r1]|] eqn:E1; [|discriminate]. apply (rec_paid _ _ _ _ Hd) in E1.
+        destruct (walk_elems rec n de true r1) as [[tl r2]|] eqn:E2; [|discriminate]. apply (IH _ _ _ _ _ Hd) in E2.
+        intros H; inversion H; subst. unfold paid in *. rewrite !app_length. pose proof (sep_le c). lia.
+    Qed.
+
+    Lemma walk_pairs_paid : forall n dk dv c bs txt r, (desc_maxkey dv <= M)%nat ->
+      walk_pairs o rec n dk dv c bs = Some (txt, r) -> (length txt + K * length r <= 1 + K * length bs)%nat.
+    Proof.
+      induction n as [|n IH]; intros dk dv c bs txt r Hd; cbn [walk_pairs].
+      - intros H; inversion H; subst. cbn [length]. lia.
+      - destruct (walk_key o dk bs) as [[kt r0]|] eqn:E0; [|discriminate]. apply walk_key_paid in E0.
+        destruct (rec dv r0) as [[t1 r1]|] eqn:E1; [|discriminate]. apply (rec_paid _ _ _ _ Hd) in E1.
+        destruct (walk_pairs o rec n dk dv true r1) as [[tl r2]|] eqn:E2; [|discriminate]. apply (IH _ _ _ _ _ _ Hd) in E2.
+        intros H; inversion H; subst. unfold paid in *. rewrite !app_length. cbn [length]. rewrite app_length.
+        pose proof (sep_le c). lia.
+    Qed.
+  End LoopsPaid.
+
+  Theorem t2j_walk_paid : forall n d bs txt r, (desc_maxkey d <= M)%nat ->
+    t2j_walk_gen fd o n d bs = Some (txt, r) -> paid 1 txt bs r.
+  Proof.
+    induction n as [|n IH]; intros d bs txt r Hd; destruct d as [t|b|fs|dk dv|s de]; cbn [t2j_walk_gen];
+      try discriminate; try apply walk_scalar_paid; try apply walk_string_paid.
+    - destruct (walk_fields o (t2j_walk_gen fd o n) (S (length bs)) fs false (bm_init fs) bs) as [[t r1]|] eqn:E; [|discriminate].
+      apply (walk_fields_paid _ IH) in E.
+      + intros H; inversion H; subst. unfold paid in *. cbn [length]. lia.
+      + intros fl Hin. eapply desc_maxkey_field; eassumption.
+    - destruct bs as [|kt [|vt r0]]; try discriminate.
+      destruct (negb (valid_ttype kt && valid_ttype vt)); [discriminate|].
+      destruct (skip_count r0) as [[sz r2]|] eqn:Ec; [|discriminate]. apply skip_count_len in Ec. destruct Ec as (Ec & _).
+      destruct (negb ((kt =? desc_type dk) && (vt =? desc_type dv))); [discriminate|].
+      destruct (sz >? zlen r2); [discriminate|].
+      destruct (walk_pairs o (t2j_walk_gen fd o n) (Z.to_nat sz) dk dv false r2) as [[t r3]|] eqn:E; [|discriminate].
+      apply (walk_pairs_paid _ IH) in E; [|cbn [desc_maxkey] in Hd; lia].
+      intros H; inversion H; subst. unfold paid. cbn [length]. rewrite Ec. lia.
+    - destruct bs as [|et r0]; try discriminate.
+      destruct (negb (valid_ttype et)); [discriminate|].
+      destruct (skip_count r0) as [[sz r2]|] eqn:Ec; [|discriminate]. apply skip_count_len in Ec. destruct Ec as (Ec & _).
+      destruct (negb (et =? desc_type de)); [discriminate|].
+      destruct (sz >? zlen r2); [discriminate|].
+      destruct (walk_elems (t2j_walk_gen fd o n) (Z.to_nat sz) de false r2) as [[t r3]|] eqn:E; [|discriminate].
+      apply (walk_elems_paid _ IH) in E; [|cbn [desc_maxkey] in Hd; lia].
+      intros H; inversion H; subst. unfold paid. cbn [length]. rewrite Ec. lia.
+  Qed.
+End T2JLinear.
+
+(* the text (and one more character) costs at most  13 + F + desc_maxkey d  characters per byte consumed, where F bounds
+   the double lexemes; in particular no output without input, and the output of a walk over bs is O(|bs|) *)
+Theorem t2j_walk_output_linear fd o F n d bs txt r : (forall b, (length (fd b) <= F)%nat) ->
+  t2j_walk_gen fd o n d bs = Some (txt, r) ->
+  (length txt + 1 <= (13 + F + desc_maxkey d) * (length bs - length r))%nat.
+Proof.
+  intros HF H. pose proof (t2j_walk_shrinks _ _ _ _ _ _ _ H) as Hl.
+  apply (t2j_walk_paid fd o F (desc_maxkey d) (13 + F + desc_maxkey d) HF (Nat.le_refl _) n d bs txt r (Nat.le_refl _)) in H.
+  unfold paid in H. rewrite Nat.mul_sub_distr_l. lia.
+Qed.
+
+Corollary t2j_at_output_linear fd o F n d bs c txt c' : (forall b, (length (fd b) <= F)%nat) -> (c <= length bs)%nat ->
+  t2j_at fd o n d bs c = Some (txt, c') -> (length txt + 1 <= (13 + F + desc_maxkey d) * (c' - c))%nat.
+Proof.
+  intros HF Hc. unfold t2j_at.
+  destruct (t2j_walk_gen fd o n d (skipn c bs)) as [[t r]|] eqn:E; [|discriminate]. intros H; inversion H; subst.
+  pose proof (t2j_walk_shrinks _ _ _ _ _ _ _ E) as Hl.
+  apply (t2j_walk_output_linear _ _ F) in E; [|assumption]. rewrite skipn_length in *.
+  replace (length bs - length r - c)%nat with (length bs - c - length r)%nat by lia. assumption.
+Qed.
